@@ -83,7 +83,7 @@ impl Scenario for Thresh {
                 return p;
             }
             "large" => {
-                let picks: [(i64, i64); 8] = [(2, 255), (255, 255), (128, 255), (13, 25), (10, 255), (21, 40), (64, 64), (3, 200)];
+                let picks: [(i64, i64); 10] = [(2, 255), (9, 255), (255, 255), (128, 255), (13, 25), (10, 255), (21, 40), (64, 64), (3, 200), (9, 240)];
                 let (t, n) = if (index as usize) < picks.len() && tier == Tier::Thorough || index < 4 {
                     picks[(index as usize) % picks.len()]
                 } else {
@@ -850,6 +850,13 @@ fn run_subsets(plan: &Plan, lib: &dyn Lib, g: Grp, rec: &mut Rec, exhaustive: bo
                 _ => x.range(1, n as u64) as usize,
             };
             let mut idx: Vec<usize> = (0..n).collect();
+            if k == 4 || k == 5 {
+                // exactly t shares: one identifier at one end, t-1 crowded at the other end
+                let mut both: Vec<usize> = if k == 4 { std::iter::once(0).chain(n - (t - 1)..n).collect() } else { std::iter::once(n - 1).chain(0..t - 1).collect() };
+                both.dedup();
+                subsets.push(both);
+                continue;
+            }
             match k % 3 {
                 0 => x.shuffle(&mut idx),
                 1 => idx.reverse(), // highest identifiers first
